@@ -344,21 +344,34 @@ fn bc_budget_two_rounds() {
 }
 
 /// Integration with the buffer type foca really uses (`Limit<Vec<u8>>`): one
-/// entry, arbitrary space.
-#[kani::proof]
-#[kani::unwind(10)]
-fn bc_fill_real_buffer() {
+/// entry of 3 bytes, concrete space per instance (a symbolic limit on a growable
+/// `Vec` runs out of memory), budget symbolic.
+fn fill_real_buffer(space: usize) {
     let (mut b, pre) = build(1, [3, 0, 0], |i| A(i as u8));
-    let space: usize = kani::any();
-    kani::assume(space <= 6);
     let buf: Vec<u8> = Vec::with_capacity(8);
     let mut lim = buf.limit(space);
     let taken = b.fill(&mut lim, usize::MAX);
     let out = lim.into_inner();
     if space >= 3 {
         kani::assert(taken == 1 && out.len() == 3 && out[0] == 0x10 && out[1] == 0xA0 && out[2] == 0xA1, "c15: the update is written verbatim");
+        kani::assert(find(&b, 0).is_none() == (pre.tx[0] == 1), "c15: leaves the backlog after exactly max_transmissions datagrams");
     } else {
         kani::assert(taken == 0 && out.is_empty() && find(&b, 0) == Some(pre.tx[0]), "c15: an update that does not fit is not written, not even partially");
     }
-    kani::cover!(space == 3, "exact fit");
+    kani::cover!(pre.tx[0] == 1, "last transmission");
+}
+#[kani::proof]
+#[kani::unwind(10)]
+fn bc_fill_real_buffer() {
+    fill_real_buffer(3)
+}
+#[kani::proof]
+#[kani::unwind(10)]
+fn bc_fill_real_buffer_short() {
+    fill_real_buffer(2)
+}
+#[kani::proof]
+#[kani::unwind(10)]
+fn bc_fill_real_buffer_roomy() {
+    fill_real_buffer(6)
 }
